@@ -945,6 +945,7 @@ func (ck c14) RunCase(c *Ctx, idx int) *CaseOut {
 		vecs = c14ThoroughVec
 	}
 	r := NewRng(c.Seed, strSeed("C14"), uint64(idx))
+	wrapIncludes = true // also consulted by the generator: must not depend on what ran before
 	cs := genC14(c.Seed, r, idx, vecs)
 	wrapIncludes = true
 	cs.Source = Source(cs.Root)
